@@ -13,7 +13,7 @@ for p in $props; do
   v=$(python3-vt -c "
 import json, jsonschema
 try:
-    jsonschema.validate(json.load(open('evidence/$p.json')), json.load(open('/root/.vp/EVIDENCE.schema.json'))); print('evidence-ok')
+    jsonschema.validate(json.load(open('${VERIF_EVIDENCE_DIR:-evidence}/$p.json')), json.load(open('/root/.vp/EVIDENCE.schema.json'))); print('evidence-ok')
 except Exception as ex: print('EVIDENCE-INVALID', str(ex)[:200])")
   echo "== $p rc=$rc $((e-s))s $v"
   [ $rc -ne 0 ] && rc_all=1
